@@ -191,6 +191,11 @@ long long c_delineate_boundary(long long nrows, long long ncols,
     /* Sort the idxcells_area */
     qsort(idxcells_area, nval, sizeof(long long), compare);
 
+    /* Check all cells are within the grid
+     * (they index catchment_area_mask below) */
+    if(idxcells_area[0]<0 || idxcells_area[nval-1]>=ngrid)
+        return CATCHMENT_ERROR + __LINE__;
+
     /* Shifting of cell index  to look for neighbouring cells */
     shift[0] = -1;
     shift[1] = 1;
